@@ -155,7 +155,7 @@ def check_C09(ctx, rep):
         walk(tr)
         n23 += 1
         rep.check(thr == [2.0 ** 53] or (thr and all(x == 2.0 ** 53 for x in thr)), "R23", "NumCast::from f64 fast path", "numcast-threshold",
-                  "NumCast::from takes the f64 route for |f| <= %s, expected 2^53 (largest range where every integer is exact)" % thr, where=H.where(b), detail={"threshold": thr, "sources": sorted(srcs)})
+                  "NumCast::from takes the f64 route for |f| <= %s, expected at most 2^53 (beyond it to_f64() has already rounded)" % thr, where=H.where(b), detail={"threshold": thr, "sources": sorted(srcs)})
     from . import rules_total
     rules_total.totality(rep, f, "R24", rules_total.entries_C09(f), "conversions", min_sites=20)
     rep.floor("R21", len([o for o in rep.obl if o["rule"] == "R21"]), 22, "small-int and float conversions")
